@@ -21,6 +21,8 @@
 #include <utility>
 #include <vector>
 #include <algorithm>
+#include <set>
+#include <tuple>
 
 #define TBB_VERSION_MAJOR 2021
 #define TBB_VERSION_MINOR 8
@@ -37,6 +39,14 @@ struct Node {            // schedule tree of a parallel_reduce region
 };
 
 struct RegionInfo { char kind; std::size_t n; };
+
+// projection of a partial result of a reduction to [found, weight] for the region traces (ParRegion.tla);
+// generic for the library's  std::tuple<std::set<Edge>, Weight, bool>  - other value types are not traced
+template<class V> struct Project { static bool get(const V &, bool &, double &) { return false; } };
+template<class E, class W> struct Project<std::tuple<std::set<E>, W, bool>> {
+    static bool get(const std::tuple<std::set<E>, W, bool> &v, bool &f, double &w) { f = std::get<2>(v); w = (double) std::get<1>(v); return true; }
+};
+struct RegionNode { std::size_t lo, hi; bool leaf, stolen; int l, r; bool init_f, res_f; double init_w, res_w; };
 
 struct Controller {
     // mode 0: no splitting at all (what a single-threaded run does)
@@ -67,6 +77,8 @@ struct Controller {
     bool log_enabled = false;
     std::vector<std::size_t> region_active; // allowed parallelism observed by every region (when log_enabled)
     // footprint recording (data-race clause of C03): which elements of live concurrent_vectors a task touched / changed
+    bool trace_regions = false;
+    std::vector<std::string> region_events;
     bool footprints = false;
     bool in_task = false;
     std::vector<std::pair<int, std::size_t>> cur_touched;
@@ -258,10 +270,14 @@ template<class Range, class Body> void parallel_for(const Range &range, const Bo
 }
 
 namespace vtbb_detail {
+template<class Value> void rec_val(const Value &v, bool &f, double &w, bool &ok) { if (!vtbb::Project<Value>::get(v, f, w)) ok = false; if (!f) w = 0; }
 template<class Range, class Value, class Body, class Join>
 Value eval(const std::vector<vtbb::Node> &t, int id, const Range &range, std::size_t lo, std::size_t hi, const Value &init,
-        const Value &identity, const Body &body, const Join &join) {
+        const Value &identity, const Body &body, const Join &join, std::vector<vtbb::RegionNode> *rec, bool &rec_ok) {
     const vtbb::Node &nd = t[(std::size_t) id];
+    std::size_t me = 0;
+    if (rec) { me = rec->size(); vtbb::RegionNode rn = {lo, hi, true, false, 0, 0, false, false, 0, 0}; rec_val(init, rn.init_f, rn.init_w, rec_ok); rec->push_back(rn); }
+    auto done = [&](const Value &r) { if (rec) rec_val(r, (*rec)[me].res_f, (*rec)[me].res_w, rec_ok); return r; };
     if (nd.leaf || hi - lo <= range.grainsize()) {     // oneTBB never splits a range that is not divisible
         vtbb::Controller &c = vtbb::ctl();
         c.leaves++;
@@ -269,22 +285,29 @@ Value eval(const std::vector<vtbb::Node> &t, int id, const Range &range, std::si
         c.fp_begin_task();
         Value r = body(sub, init);
         if (c.footprints) { if (!c.reduce_tasks.empty()) c.reduce_tasks += ","; c.reduce_tasks += c.fp_end_task(lo, hi); }
-        return r;
+        return done(r);
     }
     vtbb::ctl().splits++;
+    if (rec) { (*rec)[me].leaf = false; (*rec)[me].stolen = nd.stolen; }
     if (!nd.stolen) {                       // same body object continues with the right half
-        Value left = eval(t, nd.l, range, lo, nd.mid, init, identity, body, join);
-        return eval(t, nd.r, range, nd.mid, hi, left, identity, body, join);
+        if (rec) (*rec)[me].l = (int) rec->size() + 1;
+        Value left = eval(t, nd.l, range, lo, nd.mid, init, identity, body, join, rec, rec_ok);
+        if (rec) (*rec)[me].r = (int) rec->size() + 1;
+        return done(eval(t, nd.r, range, nd.mid, hi, left, identity, body, join, rec, rec_ok));
     }
     vtbb::ctl().steals++;
     if (nd.right_first) {
-        Value right = eval(t, nd.r, range, nd.mid, hi, identity, identity, body, join);
-        Value left = eval(t, nd.l, range, lo, nd.mid, init, identity, body, join);
-        return join(left, right);
+        if (rec) (*rec)[me].r = (int) rec->size() + 1;
+        Value right = eval(t, nd.r, range, nd.mid, hi, identity, identity, body, join, rec, rec_ok);
+        if (rec) (*rec)[me].l = (int) rec->size() + 1;
+        Value left = eval(t, nd.l, range, lo, nd.mid, init, identity, body, join, rec, rec_ok);
+        return done(join(left, right));
     }
-    Value left = eval(t, nd.l, range, lo, nd.mid, init, identity, body, join);
-    Value right = eval(t, nd.r, range, nd.mid, hi, identity, identity, body, join);
-    return join(left, right);
+    if (rec) (*rec)[me].l = (int) rec->size() + 1;
+    Value left = eval(t, nd.l, range, lo, nd.mid, init, identity, body, join, rec, rec_ok);
+    if (rec) (*rec)[me].r = (int) rec->size() + 1;
+    Value right = eval(t, nd.r, range, nd.mid, hi, identity, identity, body, join, rec, rec_ok);
+    return done(join(left, right));
 }
 }
 
@@ -295,7 +318,20 @@ Value parallel_reduce(const Range &range, const Value &identity, const Body &bod
     std::vector<vtbb::Node> t = vtbb::next_reduce(n);
     vtbb::Controller &c = vtbb::ctl();
     c.fp_begin_region(); c.reduce_tasks.clear();
-    Value r = vtbb_detail::eval(t, 0, range, 0, n, identity, identity, body, join);
+    std::vector<vtbb::RegionNode> rec; bool rec_ok = true;
+    Value r = vtbb_detail::eval(t, 0, range, 0, n, identity, identity, body, join, c.trace_regions ? &rec : nullptr, rec_ok);
+    if (c.trace_regions && rec_ok) {
+        std::string j = "{\"e\":\"Region\",\"n\":" + std::to_string(n) + ",\"nodes\":[";
+        for (std::size_t i = 0; i < rec.size(); i++) {
+            const vtbb::RegionNode &x = rec[i];
+            bool integral = (double) (long long) x.init_w == x.init_w && (double) (long long) x.res_w == x.res_w && x.init_w < 2e9 && x.res_w < 2e9;
+            if (!integral) { rec_ok = false; break; }
+            j += std::string(i ? "," : "") + "{\"lo\":" + std::to_string(x.lo) + ",\"hi\":" + std::to_string(x.hi) + ",\"leaf\":" + (x.leaf ? "true" : "false") + ",\"stolen\":" + (x.stolen ? "true" : "false") +
+                 ",\"l\":" + std::to_string(x.l) + ",\"r\":" + std::to_string(x.r) + ",\"init\":{\"found\":" + (x.init_f ? "true" : "false") + ",\"w\":" + std::to_string((long long) x.init_w) +
+                 "},\"res\":{\"found\":" + (x.res_f ? "true" : "false") + ",\"w\":" + std::to_string((long long) x.res_w) + "}}";
+        }
+        if (rec_ok) c.region_events.push_back(j + "]}");
+    }
     if (c.footprints) c.fp_events.push_back("{\"e\":\"ForRegion\",\"kind\":\"reduce\",\"n\":" + std::to_string(n) + ",\"tasks\":[" + c.reduce_tasks + "]}");
     return r;
 }
